@@ -157,6 +157,67 @@ Theorem C04_ed25519_roundtrip_Zp_partial :
 Proof. exact ed25519_roundtrip_Zp. Qed.
 Print Assumptions C04_ed25519_roundtrip_Zp_partial.
 
+(* --- every parameterisation the API allows, not only the default instances *)
+
+(* residue groups (SetParams / QuadraticResidueGroup, any cofactor): accepted iff
+   0 < v < P and v^Q = 1 in the ring -- membership in the subgroup of order Q *)
+Theorem C04_residue_decode_iff :
+  forall F (O : fops F),
+    (forall a b, feqb O a b = true -> a = b) -> (forall a, feqb O a a = true) ->
+    forall P Q s v,
+      residue_decode O P Q s = Ok v <->
+      v = be_decode s /\ 0 < v < P /\ fpow O (fofZ O v) Q = f1 O.
+Proof. exact (@residue_decode_iff). Qed.
+Print Assumptions C04_residue_decode_iff.
+
+Theorem C04_residue_total_roundtrip :
+  forall F (O : fops F),
+    (forall a b, feqb O a b = true -> a = b) -> (forall a, feqb O a a = true) ->
+    forall P Q,
+      (forall s, residue_decode O P Q s <> Panic) /\
+      (forall n v, 0 < v < P -> P <= 256 ^ Z.of_nat n -> fpow O (fofZ O v) Q = f1 O ->
+         residue_decode O P Q (residue_encode n v) = Ok v).
+Proof.
+  intros F O H1 H2 P Q. split;
+    [exact (@residue_decode_total F O P Q) | exact (@residue_roundtrip F O H1 H2 P Q)].
+Qed.
+Print Assumptions C04_residue_total_roundtrip.
+
+(* generic Edwards decoder of edwards25519vartime for any (p, a, d) and encoding
+   length n >= 1: total, exact length, accepted => on the curve *)
+Theorem C04_edg_total :
+  forall F (O : fops F) p a d sqrtm1 n s,
+    ((0 < n)%nat -> edg_decode O p a d sqrtm1 n s <> Panic) /\
+    (length s <> n -> edg_decode O p a d sqrtm1 n s = Err).
+Proof.
+  intros. split; [exact (@edg_decode_total F O p a d sqrtm1 n s) | exact (@edg_wrong_length_rejected F O p a d sqrtm1 n s)].
+Qed.
+Print Assumptions C04_edg_total.
+
+Theorem C04_edg_member :
+  forall F (O : fops F),
+    ring_theory (f0 O) (f1 O) (fadd O) (fmul O) (fsub O) (fneg O) eq ->
+    (forall a b, feqb O a b = true -> a = b) ->
+    forall p a d sqrtm1 n,
+      (p mod 4 <> 3 -> fmul O sqrtm1 sqrtm1 = fneg O (f1 O)) ->
+      forall s x y,
+        (forall t, t <> f0 O -> fmul O t (ginv O p t) = f1 O) ->
+        (forall y, fsub O a (fmul O d (fmul O y y)) <> f0 O) ->
+        edg_decode O p a d sqrtm1 n s = Ok (x, y) ->
+        fadd O (fmul O a (fmul O x x)) (fmul O y y) =
+        fadd O (f1 O) (fmul O (fmul O d (fmul O x x)) (fmul O y y)).
+Proof. exact (@edg_decode_member). Qed.
+Print Assumptions C04_edg_member.
+
+Example C04_nonvacuous_params :
+  residue_decode (zq_ops 31) 31 5 [4] = Ok 4 /\
+  residue_decode (zq_ops 31) 31 5 (residue_encode 1 4) = Ok 4 /\
+  residue_decode (zq_ops 31) 31 5 [9] = Err /\
+  Z.pow 9 15 mod 31 = 1 /\
+  residue_decode (zq_ops 31) 31 5 [0] = Err /\ residue_decode (zq_ops 31) 31 5 [31] = Err /\
+  residue_decode (zq_ops 31) 31 5 [0; 0; 4] = Ok 4.
+Proof. exact residue_cofactor6. Qed.
+
 (* --- scalars *)
 Theorem C04_modint_range :
   forall q n le s v, Forall is_byte s -> modint_decode q n le s = Ok v -> 0 <= v < q.
